@@ -372,6 +372,27 @@ static HAWK_INLINE int match_long_brs(hawk_rtx_t* rtx, hawk_becs_t* buf, hawk_ri
 	return ret;
 }
 
+static HAWK_INLINE int switch_to_next_in_stream (hawk_rtx_t* rtx, hawk_in_type_t in_type, const hawk_ooch_t* name)
+{
+	/* the current input stream has reached EOF and the record buffer is empty.
+	 * the console is the only input that may be composed of multiple streams.
+	 * ask the handler to open the next one. it returns 1 if the next stream
+	 * has been opened, 0 if there are no more streams, -1 on failure */
+	int n;
+
+	if (in_type != HAWK_IN_CONSOLE) return 0;
+
+	n = hawk_rtx_nextio_read(rtx, in_type, name);
+	if (n <= -1 && hawk_rtx_geterrnum(rtx) == HAWK_ENOIMPL) return 0; /* a handler without NEXT has a single stream */
+	if (n >= 1)
+	{
+		/* FNR restarts from 0 for the new stream. NR goes on */
+		hawk_val_t* zero = hawk_rtx_makeintval(rtx, 0);
+		if (HAWK_UNLIKELY(!zero) || hawk_rtx_setgbl(rtx, HAWK_GBL_FNR, zero) <= -1) return -1;
+	}
+	return n;
+}
+
 int hawk_rtx_readio (hawk_rtx_t* rtx, hawk_in_type_t in_type, const hawk_ooch_t* name, hawk_ooecs_t* buf)
 {
 	hawk_rio_arg_t* p;
@@ -422,11 +443,14 @@ int hawk_rtx_readio (hawk_rtx_t* rtx, hawk_in_type_t in_type, const hawk_ooch_t*
 
 			if (p->in.eof)
 			{
-				/* it has reached EOF at the previous call. */
+				/* the current stream has reached EOF. the end of a
+				 * stream always ends a record. go on with the next
+				 * stream if there is one and no record is pending */
 				if (HAWK_OOECS_LEN(buf) == 0)
 				{
-					/* we return EOF if the record buffer is empty */
-					ret = 0;
+					int n = switch_to_next_in_stream(rtx, in_type, name);
+					if (n >= 1) continue; /* eof, pos, len have been reset */
+					ret = n; /* 0 if no more streams, -1 on failure */
 				}
 				break;
 			}
@@ -446,8 +470,9 @@ int hawk_rtx_readio (hawk_rtx_t* rtx, hawk_in_type_t in_type, const hawk_ooch_t*
 
 				if (HAWK_OOECS_LEN(buf) == 0)
 				{
-					/* We can return EOF now if the record buffer is empty */
-					ret = 0;
+					/* the record buffer is empty. see above
+					 * if there is another stream to read */
+					continue;
 				}
 				else if (rrs.ptr && rrs.len == 0)
 				{
@@ -741,11 +766,14 @@ int hawk_rtx_readiobytes (hawk_rtx_t* rtx, hawk_in_type_t in_type, const hawk_oo
 
 			if (p->in.eof)
 			{
-				/* it has reached EOF at the previous call. */
+				/* the current stream has reached EOF. the end of a
+				 * stream always ends a record. go on with the next
+				 * stream if there is one and no record is pending */
 				if (HAWK_BECS_LEN(buf) == 0)
 				{
-					/* we return EOF if the record buffer is empty */
-					ret = 0;
+					int n = switch_to_next_in_stream(rtx, in_type, name);
+					if (n >= 1) continue; /* eof, pos, len have been reset */
+					ret = n; /* 0 if no more streams, -1 on failure */
 				}
 				break;
 			}
@@ -765,8 +793,9 @@ int hawk_rtx_readiobytes (hawk_rtx_t* rtx, hawk_in_type_t in_type, const hawk_oo
 
 				if (HAWK_BECS_LEN(buf) == 0)
 				{
-					/* We can return EOF now if the record buffer is empty */
-					ret = 0;
+					/* the record buffer is empty. see above
+					 * if there is another stream to read */
+					continue;
 				}
 				else if (rrs.ptr && rrs.len == 0)
 				{
